@@ -1,6 +1,6 @@
 import SqlObjVerif.Model.OrmVal
 import SqlObjVerif.Model.DrvUtil
-/-! Driver for C05 / C16 (`Drv/C16.lean` has the same `main`).  One request per line:
+/-! Driver for C16 (same protocol and model as `Drv/C05.lean`).  One request per line:
 
 `reset k lazy0 cv0 n0 … ` | `create h cls id c=v…` | `fetch h cls id 0|1` | `refresh h` | `selstmt cls` |
 `read h c` | `setattr h c v fail` | `set h fail c=v…` | `syncupdate h fail` | `sync h fail` | `expire h` |
